@@ -542,3 +542,11 @@ Theorem model_is_source_C05_Tridiag : forall A : Arith, @SrcEqTridiag.model_is_s
 Proof. intros A. exact SrcEqTridiag.model_is_source_Tridiag_lemma. Qed.
 Check model_is_source_C05_Tridiag : forall A : Arith, @SrcEqTridiag.model_is_source_Tridiag A.
 Print Assumptions model_is_source_C05_Tridiag.
+(* ---- tie of the model to the source of this run (package r2c2): gen/SrcWrapTridiag.v is regenerated on every check run from
+   src/tridiagonal.rs: empty, size, the three diagonal accessors, Clone, the consuming matrix * vector;
+   Proofs/SrcEqWrapTridiag.v proves each regenerated function equal to its hand-written model. *)
+From OV Require Proofs.SrcEqWrapTridiag.
+Theorem model_is_source_C05_WrapTridiag : forall A : Arith, @SrcEqWrapTridiag.model_is_source_WrapTridiag A.
+Proof. intros A. exact SrcEqWrapTridiag.model_is_source_WrapTridiag_lemma. Qed.
+Check model_is_source_C05_WrapTridiag : forall A : Arith, @SrcEqWrapTridiag.model_is_source_WrapTridiag A.
+Print Assumptions model_is_source_C05_WrapTridiag.
